@@ -8,7 +8,7 @@ statement-derived reference model (vp/refs/c15_filenames_model.py).  States are 
 (reference-model states, full dump of the implementation: issued/reserved dict, `variables`, and the
 suspended generator's locals g / num / position).
 """
-import itertools
+import itertools, contextlib, signal
 from vp import core
 from vp.refs import c15_filenames_model as M
 
@@ -105,7 +105,7 @@ TEMPLATES = [
     T([], [A_JOBID, A_TITLE, A_SECT]),
     T([S_INDEX], [A_IDNUM, A_ID, A_SECT]),
     T([], [A_ID, A_TITLE, A_TITLE2]),
-    T([], [A_TITLE2, A_TITLE, A_IDNUM]),
+    T([], [A_TITLE2, A_TITLE, A_SECT]),
     # four alternatives
     T([S_INDEX], [A_ID, A_TITLE, A_TITLE2, A_SECT]),
     T([], [A_TITLE, A_ID, A_IDNUM, A_SECT3]),
@@ -114,14 +114,17 @@ TEMPLATES = [
     # text around the brackets, explicit extension
     T([], [A_ID, A_SECT], pre=(var('jobname'), lit('-'))),
     T([S_INDEX], [A_ID, A_SECT3], post=(lit('.xml'),)),
-    T([], [A_ID, A_TITLE], pre=(lit('p'),), post=(lit('s'),)),
+    T([], [A_ID, A_SECT], pre=(lit('p'),), post=(lit('s'),)),
     T([S_INDEXH], [A_TITLE2, A_ID, A_SECT], pre=(lit('n-'),), post=(lit('.htm'),)),
-    T([], [A_TITLE, A_IDNUM], post=(lit('.d'),)),
+    T([], [A_TITLE, A_SECT], post=(lit('.d'),)),
     T([S_INDEX], [A_SECT], pre=(var('jobname'), lit('.')),),
     T([S_JOB, S_TOC], [A_TITLE, A_SECT], post=(lit('-x'),)),
     T([], [A_ID, A_TITLE2, A_SECT], pre=(lit('.'),)),
-    T([S_ABOUT], [A_IDNUM, A_TITLE], pre=(var('jobname'), lit('_'))),
+    T([S_ABOUT], [A_TITLE, A_SECT], pre=(var('jobname'), lit('_'))),
 ]
+
+QUICK_COMBOS = [(cs, rs) for cs in ('default', 'none', 'blank') for rs in ('none', 'some')]
+THOROUGH_COMBOS = [(cs, rs) for cs in ('default', 'none', 'blank') for rs in ('none', 'some')]
 
 LONG_TEMPLATES = [T([], [A_SECT]), T([S_INDEX], [A_ID, (lit('sect'), var('num', 4))])]
 LONG_RESERVED = {'none': [], 'hit': ['sect105.html', 'sect0105.html']}
@@ -191,9 +194,14 @@ def mentioned(t):
     return out
 
 
-def events_for(t, tier):
+def events_for(t, tier, charsub='blank'):
     m = mentioned(t)
-    ids = ID_VALUES if 'id' in m else ID_IRRELEVANT
+    ids = ID_VALUES
+    if tier == 'quick':
+        # quick: the period-bearing id only where periods survive, the blank/colon one only where something is replaced
+        ids = [None, 'a', 'b', 'a.b' if charsub == 'none' else 'a b:c']
+    if 'id' not in m:
+        ids = ID_IRRELEVANT
     titles = TITLE_VALUES if 'title' in m else TITLE_IRRELEVANT
     return [[i, ti] for i in ids for ti in titles]
 
@@ -210,13 +218,16 @@ def bindings(ev):
 # ---------------------------------------------------------------------------------------------------
 # the real object
 # ---------------------------------------------------------------------------------------------------
+FINISHED = ('finished',)
+
+
 def impl_dump(fn):
     """Everything a later request can read, except the pass counter (see ASSUMPTIONS)."""
     gen = fn.newFilename
     fr = gen.gi_frame
     if fr is None:
         # a finished generator reads nothing any more: __next__ finds it exhausted and returns None
-        return ('finished',), 0
+        return FINISHED, 0
     else:
         loc = fr.f_locals
         if 'num' not in loc:
@@ -234,7 +245,29 @@ def impl_dump(fn):
     return (g, tuple(sorted(fn.variables.items())), tuple(sorted(fn.invalid)), tuple(map(repr, fn.files))), passes
 
 
-def replay_impl(t, charsub, reserved, history, sp, limit=2.0, spec=None):
+class _CpuTimeout(Exception):
+    pass
+
+
+def _vtalarm(signum, frame):
+    raise _CpuTimeout()
+
+
+
+
+@contextlib.contextmanager
+def cpu_limit(seconds):
+    """Like core.time_limit but counts the CPU time of this process, so a loaded machine cannot fake a hang."""
+    old = signal.signal(signal.SIGVTALRM, _vtalarm)
+    signal.setitimer(signal.ITIMER_VIRTUAL, seconds)
+    try:
+        yield
+    finally:
+        signal.setitimer(signal.ITIMER_VIRTUAL, 0)
+        signal.signal(signal.SIGVTALRM, old)
+
+
+def replay_impl(t, charsub, reserved, history, sp, limit=1.5, spec=None):
     """Replay a history on a fresh object.  -> (results, dump, passes, invariant error or None)"""
     from plasTeX.Filenames import Filenames
     if spec is None:
@@ -245,14 +278,14 @@ def replay_impl(t, charsub, reserved, history, sp, limit=2.0, spec=None):
     bad = None
     seen = set()
     try:
-        with core.time_limit(limit):
+        with core.time_limit(120.0), cpu_limit(limit):
             fn = Filenames(spec, list(cs) if cs else None, dict(INIT), EXT, inv)
             for ev in history:
                 for k, v in bindings(ev).items():
                     fn.variables[k] = v
                 try:
                     r = fn()
-                except core.Timeout:
+                except (core.Timeout, _CpuTimeout):
                     raise
                 except Exception as e:
                     r = type(e).__name__
@@ -267,9 +300,9 @@ def replay_impl(t, charsub, reserved, history, sp, limit=2.0, spec=None):
                         r = repr(r)
                 results.append(r)
             dump, passes = impl_dump(fn)
-    except core.Timeout:
+    except (core.Timeout, _CpuTimeout):
         results.append('timeout')
-        return results, ('timeout',), 0, 'request did not terminate within %.1f s' % limit
+        return results, ('timeout',), 0, 'request %d did not terminate within %.1f s of CPU time' % (len(results), limit)
     return results, dump, passes, bad
 
 
@@ -411,7 +444,7 @@ def _search(block):
                 nontrivial = True if strict_before is None else past_static(cfg, strict_before, t)
                 rep.case(key=hash((cfgh, h2)), nontrivial=nontrivial, outcome=hash((cfgh, tuple(obs))))
                 case = None
-                if tuple(obs[:-1]) != obs_before:
+                if not bad and tuple(obs[:-1]) != obs_before:
                     rep.violation(make_case(block, h2), list(obs_before), obs[:-1],
                                   'replaying the same prefix on a fresh object gave different results')
                     continue
@@ -459,6 +492,11 @@ def _search(block):
                 if level >= 2 and len(rep.samples) < rep.MAX_SAMPLES:
                     rep.sample({'template': print_template(t, sp), 'charsub': charsub, 'reserved': reserved,
                                 'requests': [bindings(e) for e in h2], 'results': obs})
+                if dump == FINISHED:
+                    # the generator is exhausted: every later result is None, which only a model in its DEAD
+                    # state predicts; the other survivors cannot survive another request, so they are not
+                    # carried along (and do not keep equal states apart)
+                    new_models = [(d, st) for d, st in new_models if st == M.DEAD]
                 key = (dump, tuple(new_models))
                 if key in seen:
                     rep.count('merged')
@@ -478,11 +516,11 @@ def run(tier, seed, rep):
     depth = 6 if quick else 12
     sp = seed % 3
     blocks = []
+    combos = QUICK_COMBOS if quick else THOROUGH_COMBOS
     for ti, t in enumerate(TEMPLATES):
-        for cs in ('default', 'none', 'blank'):
-            for rs in ('none', 'some'):
-                blocks.append({'tindex': ti, 'template': t, 'charsub': cs, 'reserved': RESERVED[rs], 'spelling': sp,
-                               'depth': depth, 'events': events_for(t, tier)})
+        for cs, rs in combos:
+            blocks.append({'tindex': ti, 'template': t, 'charsub': cs, 'reserved': RESERVED[rs], 'spelling': sp,
+                           'depth': depth, 'events': events_for(t, tier, cs)})
     for ti, t in enumerate(LONG_TEMPLATES):
         for rs in ('none', 'hit'):
             for ev in LONG_EVENTS:
@@ -494,8 +532,10 @@ def run(tier, seed, rep):
     blocks.sort(key=lambda b: -(len(b['events']) * (1 + len(b['template']['alts']))))
     core.merge_all(run_block, blocks, rep)
     return {'exhaustive': True,
-            'bounds': {'history_length': depth, 'templates': len(TEMPLATES), 'charsub_sets': 3, 'reserved_sets': 2,
-                       'configurations': len(TEMPLATES) * 6, 'events_per_request_max': len(ID_VALUES) * len(TITLE_VALUES),
+            'bounds': {'history_length': depth, 'templates': len(TEMPLATES),
+                       'charsub_x_reserved': ['%s/%s' % c for c in combos],
+                       'configurations': len(TEMPLATES) * len(combos),
+                       'events_per_request_max': max(len(b['events']) for b in blocks),
                        'long_histories': {'configs': len(LONG_TEMPLATES) * 4, 'length': LONG_LEN}},
             'blocks': nblocks, 'spelling_variant': sp, 'max_depth_completed': depth, 'state_cap_hit': False,
             'floors': {'evaluations': 20000, 'issued': 10000, 'result_ValueError': 100, 'merged': 1000}}
